@@ -171,17 +171,30 @@ fn inside_year(a: &Alt, y: i64) -> bool {
         [0, a.std.off, a.dst.off].iter().all(|&o| lo < x + o && x + o < hi)
     })
 }
-/// is DST in force at t under the rule (union over the neighbouring years)
+/// is DST in force at t under the rule: the rule of the calendar year containing t decides
+/// (`Spec.Zone.ruleDstIn`): on [start, end) when the start precedes the end in that year, outside
+/// [end, start) otherwise
 fn rule_is_dst(a: &Alt, t: i64) -> bool {
-    let y0 = year_of_day(t.div_euclid(86400));
-    (y0 - 2..=y0 + 1).any(|y| {
-        let (s, e) = (start_at(a, y), end_at(a, y));
-        if s <= e {
-            s <= t && t < e
-        } else {
-            s <= t && t < end_at(a, y + 1)
-        }
-    })
+    let y = year_of_day(t.div_euclid(86400));
+    let (s, e) = (start_at(a, y), end_at(a, y));
+    if s <= e {
+        s <= t && t < e
+    } else {
+        !(e <= t && t < s)
+    }
+}
+/// the wall-clock side needs more than "inside the year": the two transitions of year y further
+/// apart than twice the offset jump (`Spec.Zone.RuleSeparated`), and the same start/end order on
+/// the wall clock and in UT (a rule whose order flips from year to year has an implied extra
+/// transition at the year boundary, which the property excludes)
+fn rule_regular(a: &Alt, y: i64) -> bool {
+    let s = rule_day(a.start, y) * 86400 + a.start_time;
+    let e = rule_day(a.end, y) * 86400 + a.end_time;
+    let d2 = 2 * (a.dst.off - a.std.off).abs();
+    (s - e).abs() > d2 && ((s < e) == (start_at(a, y) <= end_at(a, y)))
+}
+fn rule_shape(a: &Alt, y: i64) -> bool {
+    rule_day(a.start, y) * 86400 + a.start_time < rule_day(a.end, y) * 86400 + a.end_time
 }
 const YEAR_LIM: i64 = 2_000_000_000; // rule evaluation only for years well inside i32
 
@@ -304,7 +317,7 @@ fn spec_at(pz: &Pz, t: i64) -> Option<(i64, bool)> {
         Rule::Fixed(l) => Some((l.off, l.dst)),
         Rule::Alt(a) => {
             let y = year_of_day(t.div_euclid(86400));
-            if y.abs() > YEAR_LIM || !(y - 2..=y + 2).all(|k| inside_year(a, k)) {
+            if y.abs() > YEAR_LIM || !(y - 1..=y + 1).all(|k| inside_year(a, k)) {
                 return None;
             }
             let l = if rule_is_dst(a, t) { &a.dst } else { &a.std };
@@ -327,7 +340,7 @@ fn excluded_wall(pz: &Pz, l: i64) -> bool {
             return true;
         }
         for k in y - 1..=y + 1 {
-            if !inside_year(a, k) {
+            if !inside_year(a, k) || !rule_regular(a, k) || rule_shape(a, k) != rule_shape(a, y) {
                 return true;
             }
             if start_at(a, k) + a.std.off == l || end_at(a, k) + a.dst.off == l {
@@ -563,7 +576,7 @@ fn run_zone(c: &mut Ctx, z: &Zc) {
                 if !z.sep {
                     c.count("O2.skipped(not well separated)");
                 } else if excluded_wall(pz, l) {
-                    c.count("O2.skipped(excluded boundary second / rule near year boundary)");
+                    c.count("O2.skipped(excluded boundary second / rule near year boundary or irregular)");
                 } else {
                     c.count("O2.checked");
                     let back = guard(|| z.zone.offsets_for_local(nd)).unwrap_or(Err("panic".into()));
@@ -627,7 +640,7 @@ fn run_zone(c: &mut Ctx, z: &Zc) {
                 continue;
             }
             if excluded_wall(pz, l) {
-                c.count("O3.skipped(excluded boundary second / rule near year boundary)");
+                c.count("O3.skipped(excluded boundary second / rule near year boundary or irregular)");
                 continue;
             }
             // O3: brute-force wall set from offset_at
